@@ -351,6 +351,17 @@ def init_params(model, gen, scale=0.7):
                 m.weight.add_(1.0)
 
 
+class KwCall(nn.Module):
+    """calls the wrapped layer with its input as a KEYWORD argument (self.inner(input=x)) - legal for every torch module"""
+
+    def __init__(self, inner):
+        super().__init__()
+        self.inner = inner
+
+    def forward(self, x):
+        return self.inner(input=x)
+
+
 class SwapLead(nn.Module):
     """swaps the two leading dimensions (batch-first <-> sequence-first): what follows sees a NON-contiguous activation"""
 
